@@ -279,8 +279,10 @@ def type_order(repo, res):
     try:
         order = list(const_value(lp.iter))
     except ValueError:
-        raise AnalysisError("integral_data: integral types are not a literal tuple")
-    if order != enum:
+        order = None
+        res.notes.append("integral_data does not enumerate a literal tuple of integral types; the emitted order is decided by GEN-FORM (generators interpreted on the "
+                         "IR computed by _compute_form_ir)")
+    if order is not None and order != enum:
         res.fail(key, f"integral types are laid out in the order {order}; ufcx.h defines {enum}: offsets[k] would delimit the "
                  "wrong integral type", m.line(lp))
     rep = repo.mod(REP)
@@ -290,10 +292,13 @@ def type_order(repo, res):
     tup = None
     for n in walk_no_nested(g.node):
         if isinstance(n, ast.Assign) and isinstance(n.targets[0], ast.Name) and n.targets[0].id == "ufcx_integral_types":
-            tup = list(const_value(n.value))
+            try:
+                tup = list(const_value(n.value))
+            except ValueError:
+                tup = None
     if tup is None:
-        raise AnalysisError("_compute_form_ir: ufcx_integral_types not found")
-    if set(tup) != set(enum):
+        res.notes.append("_compute_form_ir does not hold a literal tuple `ufcx_integral_types`; the per-type dictionaries of the IR are decided by GEN-FORM / FORM-IR-SOURCES")
+    elif set(tup) != set(enum):
         res.fail(key, f"FormIR prepares integral types {tup}, ufcx.h has {enum}", rep.line(g.node))
     # numba file template constants agree with the enum (for the types it lists)
     nt = repo.mod("ffcx.codegeneration.numba.file_template")
@@ -569,7 +574,7 @@ def _norm_expr(t: str) -> str:
     return t.replace(" ", "")
 
 
-def form_ir_sample(repo, nargs, part, itg=None):
+def form_ir_sample(repo, nargs, part, itg=None, names=None, domains=None):
     """(interpreter, arguments, nargs) for _compute_form_ir on a sample FormData; `itg` overrides the integral data groups."""
     from ..absint import Interp, Node, _PyCall
     from ..lnodes_model import load_classes
@@ -594,13 +599,19 @@ def form_ir_sample(repo, nargs, part, itg=None):
                coefficients=_PyCall(lambda: list(coefs[1:])))
     fd = Node("FormData", original_form=form, preprocessed_form=pre, reduced_coefficients=list(coefs), original_coefficient_positions=[1, 2], argument_elements=els[:nargs],
               coefficient_elements=els[2:], integral_data=itg)
-    names = {(5, 0): "integral_a", (5, 1): "integral_b"}
-    domains = {"integral_a": ["dom_a"], "integral_b": ["dom_b1", "dom_b2"]}
+    if names is None:
+        names = {(5, 0): "integral_a", (5, 1): "integral_b"}
+    if domains is None:
+        domains = {"integral_a": ["dom_a"], "integral_b": ["dom_b1", "dom_b2"]}
     onames = {id(coefs[0]): "beta", id(consts[1]): "kappa", id(form): "a"}
     it = Interp(repo, load_classes(repo), primary=REP)
     it.overrides["logger"] = Node("Logger", info=_PyCall(lambda *a: None), debug=_PyCall(lambda *a: None))
     it.overrides["id"] = _PyCall(lambda o: id(o))
     it.overrides["FormIR"] = _PyCall(lambda **k: Node("FormIR", **k))
+    # library fact (ufl/measure.py): the registered integral types, sorted alphabetically
+    it.overrides["ufl.measure.integral_types"] = _PyCall(lambda: tuple(sorted((
+        "cell", "exterior_facet", "interior_facet", "ridge", "vertex", "custom", "cutcell", "interface", "overlap", "exterior_facet_bottom", "exterior_facet_top",
+        "exterior_facet_vert", "interior_facet_horiz", "interior_facet_vert"))))
     tp = f"TensorPart.{part}"
     return it, [fd, 5, "p", {5: "form_name"}, names, domains, onames, tp], nargs
 
@@ -978,17 +989,17 @@ def form_kernel_align(repo, res):
             ok0 = it0 in (f"zip(integrals.{field},integrals.domains)",) and isinstance(gens[0].target, ast.Tuple) and len(gens[0].target.elts) == 2
             if not ok0:
                 res.fail(key, f"{be}: {slot} is built from `{ast.unparse(gens[0].iter)}`, not from zip(integrals.{field}, integrals.domains)", m.line(prev),
-                         props=("C06", "C18") if be == "C" else ("C18", "C20"))
+                         props=("C06", "C18") if be == "C" else ("C06", "C18", "C20"))
                 continue
             dom_var = ast.unparse(gens[0].target.elts[1])
             val_var = ast.unparse(gens[0].target.elts[0])
             if len(gens) != 2 or ast.unparse(gens[1].iter) != dom_var:
                 res.fail(key, f"{be}: {slot} has one entry per integral group, not one per kernel: a group with several cell types (ds on a prism: "
                          "triangle and quadrilateral facets) makes the list shorter than form_integrals / the offsets, so lookups by "
-                         "(type, id, cell type) pick another kernel or run past the end", m.line(prev), props=("C06", "C18") if be == "C" else ("C18", "C20"))
+                         "(type, id, cell type) pick another kernel or run past the end", m.line(prev), props=("C06", "C18") if be == "C" else ("C06", "C18", "C20"))
                 continue
             if val_var not in {n.id for n in ast.walk(comp.elt) if isinstance(n, ast.Name)}:
-                res.fail(key, f"{be}: entries of {slot} do not use `{val_var}`", m.line(prev), props=("C06", "C18") if be == "C" else ("C18", "C20"))
+                res.fail(key, f"{be}: entries of {slot} do not use `{val_var}`", m.line(prev), props=("C06", "C18") if be == "C" else ("C06", "C18", "C20"))
 
 
 def _constant_names_vs_offsets(res, rep, g, cfg, component, repo):
